@@ -147,6 +147,15 @@ def histories(ctx, n):
             rqs.append(a)
             rss.append(b)
         ops = ["O"] + interleave(rng, rqs, rss)
+        if not auto and N >= 2 and rng.random() < 0.2:
+            # the application tries to destroy a transaction whose request is complete but whose response has not begun: the library refuses
+            # (htp_tx_destroy returns an error for an incomplete transaction), so the pairing of everything that follows must be unaffected
+            lastq = max(i for i, o in enumerate(ops) if o[0] == "Q")
+            sent = sum((len(o) - 1) // 2 for o in ops[:lastq + 1] if o[0] == "S")
+            for j in range(N - 1, 0, -1):
+                if sent <= sum(len(x) for x in rss[:j]) - 1 or sent == sum(len(x) for x in rss[:j]):
+                    ops.insert(lastq + 1, "D%d" % j)
+                    break
         if auto:
             k = 1
             while k < len(ops):
